@@ -65,6 +65,22 @@ def award(n, contrib, pooled, live, hands, nboards, ntypes, divmod_, rake=None, 
     return win, info
 
 
+def ref_divmod(a, d):
+    """The documented default split: whole chips share as builtin divmod does (remainder = odd chips), any other chip type is
+    divided exactly (nothing left over beyond rounding)."""
+    if isinstance(a, int) and not isinstance(a, bool):
+        return divmod(a, d)
+    q = a / d
+    return q, a - q * d
+
+
+def same_chips(a, b):
+    from fractions import Fraction
+    if isinstance(a, (int, Fraction)) and isinstance(b, (int, Fraction)):
+        return a == b
+    return abs(a - b) <= 1e-9
+
+
 FORCED = ('AntePosting', 'BlindOrStraddlePosting', 'BringInPosting', 'CheckingOrCalling')
 
 
